@@ -60,7 +60,8 @@ fn g_authdata(src: &mut Src, obs: &mut Obs) -> CaseResult {
         let model = types::gen(T::McExt, src, &mut ti);
         let ext = types::build_mc_ext(&model).map_err(|e| Fail::new("C03:harness", e, json!({})))?;
         let aaguid = src.bytes(16);
-        let idl = src.range(0, 64);
+        // small ids, and ids that put the extension map across the 676-byte capacity
+        let idl = if src.chance(1, 3) { src.range(500, 560) } else { src.range(0, 64) };
         let id = src.bytes(idl);
         let key = src.bytes(77);
         let ad = ctap2::make_credential::AuthenticatorData {
@@ -91,9 +92,14 @@ fn g_authdata(src: &mut Src, obs: &mut Obs) -> CaseResult {
         obs.label("authdata:get_assertion");
         (ad.serialize(), 37, model)
     };
-    let out = out.map_err(|e| {
-        Fail::new("C03:authdata:serialize-failed", format!("authenticator data did not serialise: {:?}", e), json!({"model": refcbor::diag(&model)}))
-    })?;
+    let out = match out {
+        Ok(o) => o,
+        Err(_) => {
+            // does not fit the capacity: nothing is emitted, nothing to judge (C07 decides the frontier)
+            obs.label("authdata:over-capacity");
+            return Ok(());
+        }
+    };
     let tail = &out[prefix_len.min(out.len())..];
     let n = model.as_map().map(|m| m.len()).unwrap_or(0);
     if n >= 2 {
@@ -252,7 +258,7 @@ pub fn run(ctx: &mut Ctx) {
         "type:PublicKeyCredentialDescriptor", "type:PublicKeyCredentialParameters",
         "type:PackedAttestationStatement", "type:cosey::PublicKey", "type:client_pin::Request",
         "type:credential_management::Request", "type:large_blobs::Request",
-        "authdata:make_credential", "authdata:get_assertion", "int:GetInfo.usize",
+        "authdata:make_credential", "authdata:get_assertion", "authdata:over-capacity", "int:GetInfo.usize",
         "int:MakeCredential.attStmt.alg",
     ]);
     if rs::GIF {
